@@ -102,29 +102,54 @@ Definition wclose (c : conn) : conn :=
 (* ---------------------------------------------------------------------- *)
 (* Session kinds and their write units.                                     *)
 
-Inductive kind := KRtmp | KRtmpV | KFlv | KWsFlv | KTs | KWsTs | KRtp | KWsRtp.
+(* rtsp: which transports the player has SETUP for each track of the stream
+   (BaseOutSession: videoRtpConn != nil / videoRtpChannel != -1 and the same
+   for audio; SETUP may be sent for one track only, and - nothing forbids it -
+   for one track with both transports) *)
+Record setup := mk_setup
+  { su_vudp : bool; su_vtcp : bool; su_audp : bool; su_atcp : bool }.
+
+(* every track interleaved on the command connection *)
+Definition setup_tcp : setup := mk_setup false true false true.
+
+Inductive track := TVideo | TAudio.
+
+Definition su_udp (su : setup) (t : track) : bool :=
+  match t with TVideo => su_vudp su | TAudio => su_audp su end.
+Definition su_tcp (su : setup) (t : track) : bool :=
+  match t with TVideo => su_vtcp su | TAudio => su_atcp su end.
+Definition su_no_udp (su : setup) : bool := negb (su_vudp su) && negb (su_audp su).
+
+Inductive kind := KRtmp | KRtmpV | KFlv | KWsFlv | KTs | KWsTs | KRtp (su : setup) | KWsRtp (su : setup).
 
 (* pkg/rtsp/interleaved.go packInterleaved *)
 Definition pack_interleaved (channel : N) (raw : bytes) : bytes :=
   [36; u8 channel] ++ be_put 2 (u16 (lenN raw)) ++ raw.
 
 (* BaseOutSession.WriteRtpPacket dispatch: the harness' SDP declares video =
-   payload type 96 on interleaved channel 0, audio = 97 on channel 2 *)
-Definition rtp_route (raw : bytes) : option N :=
+   payload type 96, audio = 97; SETUP gives video the interleaved channel 0,
+   audio the channel 2 *)
+Definition rtp_track (raw : bytes) : option track :=
   match nth_error raw 1 with
   | None => None
   | Some b1 =>
       let pt := b1 mod 128 in
-      if pt =? 96 then Some 0 else if pt =? 97 then Some 2 else None
+      if pt =? 96 then Some TVideo else if pt =? 97 then Some TAudio else None
   end.
+
+Definition track_chan (t : track) : N := match t with TVideo => 0 | TAudio => 2 end.
+
+Definition rtp_route (raw : bytes) : option N :=
+  match rtp_track raw with Some t => Some (track_chan t) | None => None end.
 
 (* the WebSocket framing as it was before the repair of F-25: header and
    payload are two connection writes, i.e. two queue units *)
 Definition ws_split_units (b : bytes) : list bytes :=
   [make_ws_frame_header true false false false 2 (lenN b) false 0; b].
 
-(* what one session-level write hands to the connection, in order.
-   [None] = the session does not write at all (rtsp: unknown payload type) *)
+(* what one session-level write hands to the (command) connection, in order.
+   [None] = the session does not write at all (rtsp: unknown payload type);
+   rtsp with a track that has no interleaved channel: no connection write *)
 Definition sess_units (k : kind) (bufs : list bytes) : option (list wunit) :=
   let b := concat bufs in
   match k with
@@ -132,32 +157,39 @@ Definition sess_units (k : kind) (bufs : list bytes) : option (list wunit) :=
   | KRtmpV => Some [bufs]                     (* ServerSession.Writev(msgs) *)
   | KFlv | KTs => Some [[b]]                  (* BasicHttpSubSession.Write *)
   | KWsFlv | KWsTs => Some (map (fun x => [x]) (ws_write_units b))
-  | KRtp =>
-      match rtp_route b with
-      | Some ch => Some [[pack_interleaved ch b]]
+  | KRtp su =>
+      match rtp_track b with
+      | Some t => if su_tcp su t then Some [[pack_interleaved (track_chan t) b]] else Some []
       | None => None
       end
-  | KWsRtp =>
-      match rtp_route b with
-      | Some ch => Some (map (fun x => [x]) (ws_write_units (pack_interleaved ch b)))
+  | KWsRtp su =>
+      match rtp_track b with
+      | Some t => if su_tcp su t
+                  then Some (map (fun x => [x]) (ws_write_units (pack_interleaved (track_chan t) b)))
+                  else Some []
       | None => None
       end
   end.
 
 Definition is_rtp (k : kind) : bool :=
-  match k with KRtp | KWsRtp => true | _ => false end.
+  match k with KRtp _ | KWsRtp _ => true | _ => false end.
+
+Definition kind_setup (k : kind) : setup :=
+  match k with KRtp su | KWsRtp su => su | _ => setup_tcp end.
 
 Record sess := mk_sess
   { s_id : nat;
     s_kind : kind;
     s_conn : conn;
     s_stale : option N;     (* BasicSessionStat.staleStat (WroteBytesSum part) *)
-    s_acc : N }.            (* rtsp BaseOutSession: sessionStat.currConnStat.WroteBytesSum *)
+    s_acc : N;              (* rtsp BaseOutSession: sessionStat.currConnStat.WroteBytesSum *)
+    s_udp : list (track * bytes);   (* rtsp: datagrams handed to the UDP sockets, in order *)
+    s_att : N }.            (* connection.Write / Writev calls made by the session so far *)
 
-Definition sess_new (id : nat) (k : kind) (cap : nat) : sess := mk_sess id k (conn_new cap) None 0.
+Definition sess_new (id : nat) (k : kind) (cap : nat) : sess := mk_sess id k (conn_new cap) None 0 [] 0.
 
 Definition set_conn (c : conn) (s : sess) : sess :=
-  mk_sess (s_id s) (s_kind s) c (s_stale s) (s_acc s).
+  mk_sess (s_id s) (s_kind s) c (s_stale s) (s_acc s) (s_udp s) (s_att s).
 
 (* enqueue the units one after the other; [eager] = the writer goroutine picks
    up a message as soon as it is free (the schedule the harness realises) *)
@@ -187,17 +219,57 @@ Definition res_code (k : kind) (ws : option (list wres)) : N :=
   | _ => 0
   end.
 
-Definition sess_write (eager : bool) (bufs : list bytes) (s : sess) : sess * N :=
+(* rtsp BaseOutSession.WriteRtpPacket for a packet of track [t]:
+     if xRtpConn != nil      { err = xRtpConn.Write(raw) }                      (UDP)
+     if xRtpChannel != -1    { err = cmdSession.WriteInterleavedPacket(raw, ch) }  (queue)
+   [err] is the result of the LAST write that was made, nil when none was.
+   A UDP socket takes the datagram unless the session has been disposed (the
+   sockets are closed together with the command connection). *)
+Definition udp_res (closed : bool) : wres := if closed then WClosed else WOk.
+
+Definition rtp_err (su : setup) (t : track) (closed : bool) (ws : list wres) : wres :=
+  last_res (if su_udp su t then udp_res closed else WOk) ws.
+
+(* has the packet been handed to any connection at all *)
+Definition rtp_handed (su : setup) (t : track) : bool := su_udp su t || su_tcp su t.
+
+(* the accounting: sessionStat.AddWriteBytes(len(packet.Raw)).
+   As it stood (the pinned tree): `if err == nil`, so a packet of a track
+   that was never SETUP - no write made, err still nil - is counted as written.
+   Repaired: only a packet that was handed to a connection counts. *)
+Definition rtp_counts_pinned (su : setup) (t : track) (closed : bool) (ws : list wres) : bool :=
+  match rtp_err su t closed ws with WOk => true | _ => false end.
+
+Definition rtp_counts (su : setup) (t : track) (closed : bool) (ws : list wres) : bool :=
+  rtp_handed su t && rtp_counts_pinned su t closed ws.
+
+Definition sess_write_gen (counts : setup -> track -> bool -> list wres -> bool)
+    (eager : bool) (bufs : list bytes) (s : sess) : sess * N :=
   match sess_units (s_kind s) bufs with
   | None => (s, res_code (s_kind s) None)
   | Some us =>
       let (c, ws) := enq_all eager us (s_conn s) in
-      (* rtsp: if err == nil { sessionStat.AddWriteBytes(len(packet.Raw)) } *)
-      let acc := if is_rtp (s_kind s)
-                 then match last_res WOk ws with WOk => s_acc s + lenN (concat bufs) | _ => s_acc s end
-                 else s_acc s in
-      (mk_sess (s_id s) (s_kind s) c (s_stale s) acc, res_code (s_kind s) (Some ws))
+      let b := concat bufs in
+      let su := kind_setup (s_kind s) in
+      let closed := c_closed (s_conn s) in
+      let acc :=
+        match is_rtp (s_kind s), rtp_track b with
+        | true, Some t => if counts su t closed ws then s_acc s + lenN b else s_acc s
+        | _, _ => s_acc s
+        end in
+      let udp :=
+        match is_rtp (s_kind s), rtp_track b with
+        | true, Some t => if su_udp su t && negb closed then s_udp s ++ [(t, b)] else s_udp s
+        | _, _ => s_udp s
+        end in
+      (mk_sess (s_id s) (s_kind s) c (s_stale s) acc udp (s_att s + lenN us),
+       res_code (s_kind s) (Some ws))
   end.
+
+(* the code as it is now *)
+Definition sess_write := sess_write_gen rtp_counts.
+(* the code as it was *)
+Definition sess_write_pinned := sess_write_gen rtp_counts_pinned.
 
 (* the byte counter the sweep looks at *)
 Definition sess_wrote (s : sess) : N :=
@@ -208,10 +280,10 @@ Definition sess_wrote (s : sess) : N :=
 Definition sweep_one (s : sess) : sess :=
   let w := sess_wrote s in
   match s_stale s with
-  | None => mk_sess (s_id s) (s_kind s) (s_conn s) (Some w) (s_acc s)
+  | None => mk_sess (s_id s) (s_kind s) (s_conn s) (Some w) (s_acc s) (s_udp s) (s_att s)
   | Some w0 =>
       let c := if w =? w0 then wclose (s_conn s) else s_conn s in
-      mk_sess (s_id s) (s_kind s) c (Some w) (s_acc s)
+      mk_sess (s_id s) (s_kind s) c (Some w) (s_acc s) (s_udp s) (s_att s)
   end.
 
 (* ---------------------------------------------------------------------- *)
@@ -333,7 +405,8 @@ Definition group_msg (eager : bool) (t ts : N) (p : bytes) (s : sess) : sess :=
 (* BasicHttpSubSession.WriteHttpResponseHeader: one connection write, never
    WebSocket-framed *)
 Definition sess_write_plain (eager : bool) (b : bytes) (s : sess) : sess :=
-  set_conn (fst (enq_all eager [[b]] (s_conn s))) s.
+  let s1 := set_conn (fst (enq_all eager [[b]] (s_conn s))) s in
+  mk_sess (s_id s1) (s_kind s1) (s_conn s1) (s_stale s1) (s_acc s1) (s_udp s1) (s_att s1 + 1).
 
 (* Group.AddHttpflvSubSession: response header (its text is abstracted to the
    single byte 'H'), then the FLV header through Write *)
